@@ -161,6 +161,7 @@ JudgeReplace(e) ==
           ELSE IF S.cell # <<>> /\ \E r \in newrows : ~InsideClosed(S.cell, r.pos) THEN "inserted-inside-cell"
           ELSE IF SeqToBag(Y.atoms) # SeqToBag(X.atoms) THEN
                (IF \A r \in Range(Y.atoms) : \E q \in Range(X.atoms) : Key(r) = Key(q) /\ r.ty = q.ty THEN "atoms-data"
+                ELSE IF \E r \in Range(Y.atoms) : \A q \in Range(X.atoms) : Key(r) = Key(q) => r.ty.el # q.ty.el THEN "atoms-element"
                 ELSE "atoms-type-meaning")
           ELSE IF \E k \in Kinds : Y.cnt[k] # Cardinality(Y.terms[k]) THEN "term-listed-twice"
           ELSE IF NY.terms["bond"] # NX.terms["bond"] THEN "bonds"
